@@ -120,10 +120,11 @@ Definition lcase_prop_ok (c : lcase) : bool :=
       (lc_obs c))).
 
 (* ---- end to end: the real binary started with --deny-domains / --mitm-domains, requests for target hosts ---- *)
-(* the reference identifies a fully qualified name with and without its trailing dot at the deny site
-   ("evil.test." is the host "evil.test"; /repo 36ee1cd), so a request is to be denied when the list matches either form *)
+(* the reference identifies a fully qualified name with and without its trailing dot at the deny and the direct site
+   ("evil.test." is the host "evil.test"; /repo 36ee1cd, 47e9db6): the site is to say yes when the list matches either
+   form; the MITM filter judges the name as written *)
 Definition ref_forms (st : site) (h : str) : list str :=
-  match st with SiteDeny => [h; trim_dot h] | _ => [h] end.
+  match st with SiteDeny | SiteDirect => [h; trim_dot h] | SiteMitm => [h] end.
 Definition site_of (n : N) : site := if n =? 0 then SiteDeny else if n =? 1 then SiteDirect else SiteMitm.
 
 Record ucase := {
